@@ -221,8 +221,8 @@ def main(run):
         base += lat[::9] + ktree.generate(run.seed + 900, 25)
         per_base = 45
     else:
-        base += lat + ktree.generate(run.seed + 900, 500)
-        per_base = 400
+        base += lat + ktree.generate(run.seed + 900, 300)
+        per_base = 120
     cases = []
     for bi, it in enumerate(base):
         cases.append({"prog": it["prog"], "label": {"base": bi, "kind": "base"}})
@@ -240,21 +240,27 @@ def main(run):
     for c in cases:
         ktree.strings_of(c["prog"], strings)
     tab = ktree.tables(strings)
-    path = run.sub("deps.json")
-    with open(path, "w") as f:
-        json.dump({"tab": tab, "progs": [{"prog": c["prog"], "obs": c["obs"]} for c in cases]}, f)
-    res = run_tlc("MC_Deps", "MC_Deps.cfg", run, env={"DEPS_DATA": path}, workers=16, timeout=3000, tag="deps")
-    if res.violated or not res.ok:
-        raise MachineryFailure("MC_Deps: %s\n%s" % (res.violated, (res.error or res.out[-2000:])[:2500]))
-    run.add("states", res.distinct)
-    run.add("transitions", res.generated)
     verdict = {}
     bad = set()
-    for v in extract_tuples(res.out, 'L"|R-verdict|R-names'):
-        if v[0] == "L":
-            verdict[v[1]] = (v[2], v[3])
+    mism = []
+    chunk = 8000  # one TLC run per 8000 texts (the thorough tier's single run over several hundred thousand did not finish)
+    for b0 in range(0, len(cases), chunk):
+        path = run.sub("deps_%d.json" % b0)
+        with open(path, "w") as f:
+            json.dump({"tab": tab, "progs": [{"prog": c["prog"], "obs": c["obs"]} for c in cases[b0 : b0 + chunk]]}, f)
+        res = run_tlc("MC_Deps", "MC_Deps.cfg", run, env={"DEPS_DATA": path}, workers=16, timeout=3000, tag="deps%d" % b0)
+        os.unlink(path)
+        if res.violated or not res.ok:
+            raise MachineryFailure("MC_Deps: %s\n%s" % (res.violated, (res.error or res.out[-2000:])[:2500]))
+        run.add("states", res.distinct)
+        run.add("transitions", res.generated)
+        for v in extract_tuples(res.out, 'L"|R-verdict|R-names'):
+            if v[0] == "L":
+                verdict[v[1] + b0] = (v[2], v[3])
+            else:
+                mism.append([v[0], v[1] + b0] + list(v[2:]))
     loops = sum(1 for t in verdict.values() if t[0])
-    for v in extract_tuples(res.out, "R-verdict|R-names"):
+    for v in mism:
         t = v[1]
         c = cases[t - 1]
         bad.add(t)
